@@ -15,6 +15,52 @@ from engine import report, catalogue
 from harness import oracle_model as om
 
 
+def fractional_worker(args):
+    """closed models whose transitions move NON-INTEGER amounts (magnitudes 1/2, 3/2): the trace specification works on
+    integer states, so these paths are judged here directly -- every reported state vector (raw exact, raw tau-leap,
+    gridded exact) must have exactly the initial total (halves are exact in binary64)"""
+    import random
+    import numpy as np
+    from harness import record_jump as rj
+    from engine.codec import pconst
+    from fractions import Fraction
+    seed, idx = args
+    rng = random.Random((seed << 16) + idx)
+    while True:
+        defn, theta, x0, lims = rj.random_jump_model(rng, closed=True, limits=False)
+        if defn.sy.ns >= 2:
+            break
+    n = defn.sy.n
+    for p in defn.procs:
+        for t in p["trs"]:
+            t["mag"] = pconst(rng.choice([Fraction(1, 2), Fraction(3, 2), Fraction(1), Fraction(2)]), n)
+    x0 = [int(v) + 6 for v in x0]
+    out = {"idx": idx, "describe": defn.describe(), "x0": x0, "bad": [], "runs": 0}
+    try:
+        m, _ = rj.make_model(defn, theta, x0, lims, rng)
+    except Exception as ex:
+        out["bad"].append({"what": "model construction raised", "detail": repr(ex)[:200]})
+        return out
+    total = float(sum(x0))
+    r0 = max(sum(rj.rate_float(defn, theta, x0)), 1e-6)
+    T = min(5.0, 30.0 / r0)
+    for exact, grid in ((True, None), (False, None), (True, np.linspace(0.0, T, 6)), (True, list(np.linspace(0.0, T, 4)))):
+        np.random.seed((seed * 31 + idx * 7 + out["runs"]) % (2 ** 31))
+        try:
+            res = m.solve_stochast(T if grid is None else grid, 2, exact=exact, full_output=True)
+        except Exception as ex:
+            out["bad"].append({"what": "solve_stochast raised", "detail": repr(ex)[:200], "exact": exact, "grid": grid is not None})
+            continue
+        out["runs"] += 1
+        for X in res[0]:
+            sums = np.asarray(X, float).reshape(len(X), -1).sum(axis=1)
+            if not np.all(sums == total):
+                out["bad"].append({"what": "total population not conserved", "exact": exact, "grid": grid is not None,
+                                   "totals": sorted(set(float(v) for v in sums))[:6], "expected": total})
+                break
+    return out
+
+
 def run(rep, tier, seed):
     quick = tier == "quick"
     # symbolic clause
@@ -56,6 +102,13 @@ def run(rep, tier, seed):
     jobs = [(seed % 100000 + 10, i, {"checkdraws": False, "closed": True, "max_steps": 120 if quick else 250})
             for i in range(ns)]
     sres = mc.pool_map(jc.model_worker, jobs)
+    fres = mc.pool_map(fractional_worker, [(seed % 100000 + 10, i) for i in range(16 if quick else 200)])
+    for r in fres:
+        rep.count(r["runs"])
+        for b in r["bad"]:
+            rep.violation("closed model with fractional magnitudes: %s" % b, {"definition": r["describe"], "x0": r["x0"], "finding": b},
+                          key="fractional|%s|exact=%s|grid=%s" % (b["what"], b.get("exact"), b.get("grid")))
+    rep.cov["closed_models_fractional_magnitudes"] = len(fres)
     for r in sres:
         r["findings"] = []
     judge_jump(rep, sres, {"invariant:TraceConservation", "walk", "draws-or-walk"}, "C10", python_findings=False)
